@@ -95,6 +95,42 @@ def gen_path(rng):
     return text, {'relative': not absolute, 'loops': loops, 'seg': seg, 'qual': qual, 'ele': ele, 'comp': comp}, shape
 
 
+def map_paths(rng, n):
+    """the printed path of nodes of the shipped maps (read through the independent loader): loops, segments (with the
+    qualifier that tells same-position siblings apart), elements and components"""
+    import mapspec
+    out = []
+    ents = mapspec.selectable()
+    m = mapspec.load_map(rng.choice(ents)['file'])
+    nodes = [x for x in mapspec.walk(m) if x.kind in ('loop', 'segment')]
+    for _ in range(n):
+        nd = rng.choice(nodes)
+        loops = nd.path().strip('/').split('/')
+        seg = qual = ele = comp = None
+        if nd.kind == 'segment':
+            seg = loops.pop()
+            ql = mapspec.qualifiers(nd)
+            if ql and rng.random() < 0.5:
+                c = ql[0][1][0]
+                if c and c.isalnum() and c.upper() == c:
+                    qual = c
+            if nd.children and rng.random() < 0.7:
+                k = rng.randrange(len(nd.children))
+                ele = k + 1
+                ch = nd.children[k]
+                if ch.kind == 'composite' and ch.children and rng.random() < 0.7:
+                    comp = rng.randint(1, len(ch.children))
+        rx = __import__('re')
+        if seg is not None and not rx.match(r'^[A-Z][A-Z0-9]{1,2}$', seg):
+            continue
+        if seg is None and rx.match(r'^[A-Z][A-Z0-9]{1,2}$', loops[-1]):
+            continue        # a final loop id that looks like a segment id is read as one (documented ambiguity: 997 loops AK2/AK3)
+        last = (seg or '') + ('[%s]' % qual if qual else '') + ('%02d' % ele if ele else '') + ('-%d' % comp if comp else '')
+        text = '/' + '/'.join(loops + ([last] if last else []))
+        out.append([text, {'relative': False, 'loops': loops, 'seg': seg, 'qual': qual, 'ele': ele, 'comp': comp}, 'map:' + nd.kind])
+    return out
+
+
 def generate(rng, tier, run, seed=0):
     seg_term, ele_term, sub_term = rng.choice([('~', '*', ':'), ('~', '*', ':'), ('\n', '|', '>'), ('!', '^', '\\'), ('+', ',', '<')])
     is_isa = rng.random() < 0.15
@@ -121,6 +157,7 @@ def generate(rng, tier, run, seed=0):
         refdes = '%s%02d' % (prefix, ele) + ('-%d' % comp if comp else '')
         ops.append([op, refdes, gen_value(rng) if op == 'set' else None])
     paths = [list(gen_path(rng)) for _ in range(30)]
+    paths += map_paths(rng, 12 if tier == 'quick' else 40)
     return {'init': init, 'delims': [seg_term, ele_term, sub_term], 'ops': ops, 'paths': paths}
 
 
